@@ -63,10 +63,22 @@ class TruthMonitor:
             s = self.seen.setdefault(k, set())
             if len(s) < 12:
                 s.add(val if isinstance(val, (int, str, bool)) else int(val))
+        self._count_disabled_nic_traffic(exp)
         bad = obs_ref.compare(exp, real)
         if bad:
             path, e, g = bad
             self.v(f"leaf-mismatch/{leaf_kind(path)}", f"{where}: observation leaf {path} is {g!r}, ground truth encodes to {e!r}")
+
+    def _count_disabled_nic_traffic(self, x):
+        """state class of interest: an interface that is disabled at the end of a step in which it carried traffic / captured events"""
+        if isinstance(x, dict):
+            if x.get("nic_status") == 2:
+                def nz(v):
+                    return any(nz(w) for w in v.values()) if isinstance(v, dict) else (isinstance(v, int) and not isinstance(v, bool) and v > 0)
+                if any(nz(v) for k, v in x.items() if k != "nic_status"):
+                    self.cov.inc("disabled_nic_with_same_step_traffic")
+            for v in x.values():
+                self._count_disabled_nic_traffic(v)
 
     def after_reset(self, env, obs, ep):
         self.trail.append(("reset", ep))
@@ -96,7 +108,7 @@ class Check:
         "raw per-step counters whose encoding is undocumented (num_file_creations/deletions) are not judged here (space bound only, C02)",
         "software is resolved by name through node.software_manager.software (canonical registry)",
     ]
-    min_monitor = {"observations_compared": 2000, "leaves_compared": 200000}
+    min_monitor = {"observations_compared": 2000, "leaves_compared": 200000, "disabled_nic_with_same_step_traffic": 3}
     case_timeout = {"quick": 1500, "thorough": 7200}
 
     def cases(self, tier, seed):
@@ -110,6 +122,14 @@ class Check:
             sd = seed * 1000 + s
             specs.append({"name": f"gen-{sd}", "src": ["gen", {"seed": sd}], "policy": pols[s % 4], "seed": sd, "episodes": 2,
                           "steps": 40 if q else 96})
+        # interfaces toggled by a defender that acts LAST, with traffic-related leaves observed: a NIC that carried traffic / captured
+        # events earlier in the same step and is disabled at its end
+        for s in range(24 if q else 96):
+            sd = seed * 1000 + 500 + s
+            specs.append({"name": f"gen-nic-{sd}", "src": ["gen", {"seed": sd, "knobs": {"defender_position": "last", "include_nmne": True, "capture_nmne": True}}],
+                          "policy": "nic", "seed": sd, "episodes": 2, "steps": 60 if q else 120})
+        specs.append({"name": "shipped-uc2-nic", "src": ["shipped", "data_manipulation.yaml"], "policy": "nic", "seed": seed * 100 + 9, "episodes": 2,
+                      "steps": 80 if q else 300, "max_len": 80 if q else None})
         return specs
 
     def run_case(self, spec):
